@@ -7,6 +7,7 @@ import (
 	"encoding/hex"
 	"errors"
 	"fmt"
+	"hash/crc32"
 	"io"
 	"math/rand/v2"
 	"os"
@@ -68,6 +69,14 @@ func c19Content(r *rand.Rand, name string, set c19Set) []byte {
 		return bytes.Repeat([]byte(unit), n/len(unit)+1)[:n]
 	case 6:
 		return []byte("module example.com/m\n")
+	case 7: // other bytes of the same length and the same CRC-32 as another file (what a zip directory records about content)
+		if len(set) > 0 {
+			if o := set[r.IntN(len(set))].Data; len(o) >= 5 && len(o) <= 4096 {
+				if tw := c19CRCTwin(r, o); tw != nil {
+					return tw
+				}
+			}
+		}
 	}
 	b := make([]byte, r.IntN(40))
 	for i := range b {
@@ -79,6 +88,38 @@ func c19Content(r *rand.Rand, name string, set c19Set) []byte {
 		}
 	}
 	return b
+}
+
+// c19CRCTwin returns content different from o with len(o) bytes and the CRC-32 (IEEE) of o: a fresh
+// prefix followed by the four bytes that steer the checksum to the wanted value. nil if that fails.
+func c19CRCTwin(r *rand.Rand, o []byte) []byte {
+	tab := crc32.IEEETable
+	tw := make([]byte, len(o))
+	for i := range tw[:len(tw)-4] {
+		tw[i] = o[i]
+	}
+	k := r.IntN(len(tw) - 4)
+	tw[k] ^= byte(1 + r.IntN(255))
+	reg := ^crc32.ChecksumIEEE(tw[:len(tw)-4])
+	w := ^crc32.ChecksumIEEE(o)
+	var idx [4]byte
+	for i := 3; i >= 0; i-- {
+		for j := 0; j < 256; j++ {
+			if tab[j]>>24 == w>>24 {
+				idx[i] = byte(j)
+				break
+			}
+		}
+		w = (w ^ tab[idx[i]]) << 8
+	}
+	for i := 0; i < 4; i++ {
+		tw[len(tw)-4+i] = byte(reg) ^ idx[i]
+		reg = tab[idx[i]] ^ (reg >> 8)
+	}
+	if crc32.ChecksumIEEE(tw) != crc32.ChecksumIEEE(o) || bytes.Equal(tw, o) {
+		return nil
+	}
+	return tw
 }
 
 var c19NamePieces = []string{"a", "b", "A", "B", "ab", "go.mod", "/", "/", " ", "  ", "\r", "\t", "é", "世", ".", "-", "_", "0", "x", "z", "\\", "\x00", "\xff", "~", "@v1.0.0", "m@v", "é́"}
